@@ -477,6 +477,69 @@ func streamEnvAPI(o *Out, r *rand.Rand, n int, thorough bool) {
 		req.WriteString(")")
 		o.Case(req.String(), strings.Join(results, " | ")+" || "+strings.Join(w.dumpAll(), " "), strings.Join(hist, " "), true)
 	}
+	// requests a host can make with reflect values: the zero Value, a nil module pointer, an unexported field - an error or a
+	// harmless result, never a panic, and the scope stays as it was
+	for _, c := range []struct {
+		name string
+		run  func(e *env.Env) interface{}
+	}{
+		{"DefineValue(x, zero Value); Get(x)", func(e *env.Env) interface{} { _ = e.DefineValue("x", reflect.Value{}); v, err := e.Get("x"); return fmt.Sprint(v, err) }},
+		{"DefineValue(x, zero Value); GetValue(x); String(); Copy; DeepCopy; Addr(x)", func(e *env.Env) interface{} {
+			_ = e.DefineValue("x", reflect.Value{})
+			_, _ = e.GetValue("x")
+			_ = e.String()
+			e.Copy()
+			e.DeepCopy()
+			_, _ = e.Addr("x")
+			return nil
+		}},
+		{"Define(n, 1); SetValue(n, zero Value); Get(n)", func(e *env.Env) interface{} { _ = e.Define("n", int64(1)); _ = e.SetValue("n", reflect.Value{}); v, err := e.Get("n"); return fmt.Sprint(v, err) }},
+		{"DefineGlobalValue(x, zero Value); Get(x)", func(e *env.Env) interface{} { _ = e.NewEnv().DefineGlobalValue("x", reflect.Value{}); v, err := e.Get("x"); return fmt.Sprint(v, err) }},
+		{"DefineValue(x, zero Value); GetEnvFromPath([x])", func(e *env.Env) interface{} { _ = e.DefineValue("x", reflect.Value{}); _, err := e.GetEnvFromPath([]string{"x"}); return err }},
+		{"DefineValue(x, zero Value); GetEnvFromPath([x y])", func(e *env.Env) interface{} { _ = e.DefineValue("x", reflect.Value{}); _, err := e.GetEnvFromPath([]string{"x", "y"}); return err }},
+		{"Define(m, (*Env)(nil)); GetEnvFromPath([m x])", func(e *env.Env) interface{} { _ = e.Define("m", (*env.Env)(nil)); _, err := e.GetEnvFromPath([]string{"m", "x"}); return err }},
+		{"Define(m, (*Env)(nil)); GetEnvFromPath([m]) then Define on the result", func(e *env.Env) interface{} {
+			_ = e.Define("m", (*env.Env)(nil))
+			m, err := e.GetEnvFromPath([]string{"m"})
+			if err == nil && m != nil {
+				_ = m.Define("z", 1)
+			} else if err == nil {
+				return "nil scope without an error"
+			}
+			return err
+		}},
+		{"NewModule(m); Define(a, 1) in it; GetEnvFromPath([m a])", func(e *env.Env) interface{} { m, _ := e.NewModule("m"); _ = m.Define("a", 1); _, err := e.GetEnvFromPath([]string{"m", "a"}); return err }},
+		{"DefineType(T, nil); Type(T); GetTypeSymbols; String", func(e *env.Env) interface{} { _ = e.DefineType("T", nil); _, _ = e.Type("T"); e.GetTypeSymbols(); return e.String() }},
+		{"DefineReflectType(T, nil); Type(T)", func(e *env.Env) interface{} { _ = e.DefineReflectType("T", nil); t, err := e.Type("T"); return fmt.Sprint(t, err) }},
+		{"Get / Set / Delete / Addr / Type of the empty name", func(e *env.Env) interface{} {
+			_, _ = e.Get("")
+			_ = e.Set("", 1)
+			e.Delete("")
+			_, _ = e.Addr("")
+			_, _ = e.Type("")
+			_ = e.Define("", 1)
+			return nil
+		}},
+		{"GetEnvFromPath(nil); GetEnvFromPath([\"\"])", func(e *env.Env) interface{} { _, _ = e.GetEnvFromPath(nil); _, err := e.GetEnvFromPath([]string{""}); return err }},
+	} {
+		func() {
+			e := env.NewEnv()
+			defer func() {
+				if p := recover(); p != nil {
+					o.Fail(Failure{Oracle: "env-never-panics", Key: "env-panic:host-request", Input: c.name, Detail: fmt.Sprint(p)})
+				}
+			}()
+			o.Sum.Evaluations++
+			o.Sum.Hist["host-request"]++
+			if r := c.run(e); r == "nil scope without an error" {
+				o.Fail(Failure{Oracle: "invalid-request-is-an-error", Key: "env-nil-scope", Input: c.name, Detail: "GetEnvFromPath returned (nil, nil)"})
+			}
+			// the scope is still usable
+			if err := e.Define("after", int64(1)); err != nil {
+				o.Fail(Failure{Oracle: "scope-stays-usable", Key: "env-unusable:host-request", Input: c.name, Detail: err.Error()})
+			}
+		}()
+	}
 	// "set updates the nearest existing binding or fails WITHOUT CREATING ONE" also when a delete of that binding runs at the
 	// same time: once Delete has returned and every Set has returned, the name is unbound
 	rounds := 3000
